@@ -28,6 +28,7 @@ type vpReplayFile struct {
 	Threaded bool              `json:"threaded"`
 	Expect   string            `json:"expect"`
 	Repeat   int               `json:"repeat"`
+	Race     bool              `json:"race"` // race-detector run: no baton, no recording (both add synchronisation)
 }
 
 type vpOutcome struct {
@@ -51,6 +52,7 @@ var vpR struct {
 	arrived  chan struct{}
 	freeRun  bool
 	threaded bool
+	race     bool
 	kill     chan struct{}
 	root     context.Context
 	cancel   context.CancelFunc
@@ -71,7 +73,8 @@ func vpReset(in *vpReplayFile) {
 	vpR.start = time.Now()
 	vpR.waiters = map[string][]chan struct{}{}
 	vpR.arrived = make(chan struct{}, 1024)
-	vpR.freeRun = !in.Threaded
+	vpR.freeRun = !in.Threaded || in.Race
+	vpR.race = in.Race
 	vpR.threaded = in.Threaded
 	vpR.kill = make(chan struct{})
 	vpR.root, vpR.cancel = context.WithCancel(context.Background())
@@ -170,6 +173,7 @@ func vpRecTok(r []byte) string  { p, _ := vpParse(r); return p.Token }
 func vpRecPrio(r []byte) int    { p, _ := vpParse(r); return p.Priority }
 func vpRecParses(r []byte) bool { _, err := vpParse(r); return err == nil }
 func vpRecEmpty(r []byte) bool  { return len(r) == 0 }
+func vpSameBytes(a, b []byte) bool { return string(a) == string(b) }
 func vpRecMapField(r []byte, f string) (bool, string) {
 	m := map[string]interface{}{}
 	if json.Unmarshal(r, &m) != nil {
@@ -213,6 +217,9 @@ func vpAssert(id string, b bool) {
 	}
 }
 func vpCover(id string) {
+	if vpR.race {
+		return
+	}
 	vpR.mu.Lock()
 	vpR.out.Covers = append(vpR.out.Covers, id)
 	vpR.mu.Unlock()
@@ -231,6 +238,9 @@ func vpIte(c bool, a, b int64) int64 {
 // vpYield: park until the replay driver releases this label (recorded resume order), or pass
 // straight through in free-run mode.
 func vpYield(label string) {
+	if vpR.race {
+		return
+	}
 	vpR.mu.Lock()
 	if vpR.freeRun {
 		vpR.mu.Unlock()
@@ -249,6 +259,10 @@ func vpYield(label string) {
 // vpYieldLazy: natively the same baton; the goroutine stays parked (durably blocked, so the bubble's clock
 // keeps running) until the recorded resume order reaches it, or maxWait elapses.
 func vpYieldLazy(label string, maxWait time.Duration) {
+	if vpR.race {
+		time.Sleep(maxWait / 3)
+		return
+	}
 	vpR.mu.Lock()
 	if vpR.freeRun {
 		vpR.mu.Unlock()
@@ -309,6 +323,9 @@ func vpDelay(label string, lo, hi time.Duration) {
 }
 func vpNow() int64 { return int64(time.Since(vpR.start)) }
 func vpEvent(kind string, args ...any) {
+	if vpR.race {
+		return
+	}
 	var parts []string
 	for _, a := range args {
 		parts = append(parts, fmt.Sprint(a))
